@@ -18,6 +18,7 @@ import Nitime.Lemmas.BlockLevinson
 import Nitime.Lemmas.ARInst
 import Nitime.Props.C10
 import Mathlib.LinearAlgebra.Matrix.NonsingularInverse
+import Mathlib.LinearAlgebra.Matrix.PosDef
 
 open Finset
 open Nitime.AR Nitime.C11
@@ -224,6 +225,24 @@ theorem lwr_solves (h0 : star (r 0) = r 0) (P : ℕ) (hinv : InvOK inv r P) :
     refine sum_congr rfl fun i hi => ?_
     simp only [mem_range] at hi
     rw [coefA_eq inv r P i (by omega)]
+
+/-- **C11 MAR_est_LWR, intended.** With `nlags = order + 1` the estimator returns `order` matrices
+(and by `lwr_solves` they solve the order-`order` system). -/
+theorem marEst_intended_order (order : ℕ) :
+    (@marEstLWR M (ringOps inv) true r order).1.length = order := by
+  simp [marEstLWR, marLags, lwr_length]
+
+/-- **C11 MAR_est_LWR, today's code (finding `mar/order-off-by-one`).** -/
+theorem marEst_current_partial (order : ℕ) :
+    (@marEstLWR M (ringOps inv) false r order).1.length = order - 1 := by
+  simp [marEstLWR, marLags, lwr_length]
+
+theorem marEst_current_counterexample :
+    ¬ ∀ order, 1 ≤ order → (@marEstLWR M (ringOps inv) false r order).1.length = order := by
+  intro h
+  have := h 1 le_rfl
+  rw [marEst_current_partial] at this
+  omega
 
 end bridge
 
@@ -510,6 +529,33 @@ theorem lwr_scalar_is_LD (r : ℕ → ℂ) (h0 : conj (r 0) = r 0) (p : ℕ)
   simp [coef]
 
 end scalar
+
+/-! ### positive definiteness (partial: orders 0 and 1) -/
+section pd
+variable {n : ℕ}
+open ComplexOrder Matrix
+
+/-- order 0: the innovation covariance is `R(0)` -/
+theorem lwr_sigma_order0 (r : ℕ → Matrix (Fin n) (Fin n) ℂ) :
+    (@lwr _ (ringOps fun X => X⁻¹) r 0).2 = r 0 := rfl
+
+/-- **C11 positive (semi)definiteness, proved up to order 1** (partial clause): if `R(0)` is
+positive definite and the 2×2 block-Toeplitz matrix `[[R0, R1], [R1ᴴ, R0]]` is positive
+semidefinite, the order-1 innovation covariance `(I − ka·kb)·R0 = R0 − R1·R0⁻¹·R1ᴴ` is
+Hermitian positive semidefinite. -/
+theorem lwr_sigma_psd_order1 (r : ℕ → Matrix (Fin n) (Fin n) ℂ) (h0 : (r 0).PosDef)
+    (hT : (fromBlocks (r 0) (r 1) (r 1)ᴴ (r 0)).PosSemidef) :
+    (@lwr _ (ringOps fun X => X⁻¹) r 1).2.PosSemidef := by
+  have hu : IsUnit (r 0).det := (Matrix.isUnit_iff_isUnit_det _).mp h0.isUnit
+  let _ : Invertible (r 0) := h0.isUnit.invertible
+  have hval : (@lwr _ (ringOps fun X => X⁻¹) r 1).2 = r 0 - r 1 * (r 0)⁻¹ * (r 1)ᴴ := by
+    show (1 - (r 1 * (r 0)⁻¹) * (star (r 1) * (r 0)⁻¹)) * r 0 = _
+    rw [sub_mul, one_mul, Matrix.mul_assoc, Matrix.mul_assoc (star (r 1)), Matrix.nonsing_inv_mul _ hu,
+      Matrix.mul_one, Matrix.star_eq_conjTranspose]
+  rw [hval]
+  exact (Matrix.PosDef.fromBlocks₂₂ (r 0) (r 1) h0).mp hT
+
+end pd
 
 /-! ### non-vacuity -/
 
